@@ -81,6 +81,14 @@ CLAIMED["C07"] = dict(engine="ecsim", design="§6 C07",
    technique=TECH + "crash injection between the in-place mark and the journal append (and inside the journal append), reopen and index rebuilds; byte-level model of the sorted index; default and 5BytesOffset builds",
    text="Deletes of present, absent and already deleted keys through EcVolume and through the sorted-file needle map of read-only volumes, lookups, reopen, RebuildEcxFile and WriteIdxFileFromEcIndex; crashes before the mark, between mark and journal, inside the journal append and after it. Exactly the target entry's size becomes a tombstone, every other entry keeps offset and size, the journal holds every acknowledged delete, rebuilt indexes give the model's live set, and after a crash the in-flight delete is applied or not and nothing else changed. Both offset widths.",
    note=ECNOTE)
+CLAIMED["C30"] = dict(engine="mountsim", design="§6 C30, §5.6",
+   technique=TECH + "asynchronous chunk uploads parked in an injected saver and completed (or failed) in a plan-chosen order while writes, truncates, reads and flushes continue; POSIX byte-array model; flushed chunks resolved with the real filer chunk logic",
+   text="On one open mount file handle, for both dirty-page buffers, chunk limits from 8 bytes to 4 KiB and writer limits 0-8: generated writes (overlapping, out of order, beyond EOF, larger than the chunk limit), truncates, reads and flushes run against the real FileHandle/dirty-page code while every chunk upload parks in the injected saver and the plan decides when it completes and whether it fails. Every read equals a POSIX byte model, after a successful flush the collected and compacted chunks resolve to the model, and a flush fails exactly when an upload failed.",
+   note="Trusted: the chunk saver (filer AssignVolume + HTTP upload) is the one stubbed component: weed/filesys/wfs_write.go is replaced at build time by a version that delegates to the harness; volume reads are answered in-process; the filer RPC leg of flush, reopen and chunk manifests are not exercised; uploads complete at quiescent points, one at a time.")
+CLAIMED["C31"] = dict(engine="mountsim", design="§6 C31",
+   technique=TECH + "clean and dirty (torn cache files) restarts injected between chunk stores and lookups on the real tiered cache with tiny sizes that force rotation and eviction; same-file-id oracle",
+   text="Store / lookup / slice-lookup sequences with file ids that share or differ in volume id, key and cookie, sizes around the tier limits (shrunk through the unit size), rotation of all three on-disk layers and memory eviction, clean shutdown + reopen and reopen on a copy with a cache volume's data or index file cut to a prefix. A lookup returns nothing or bytes stored under that same file id at the requested offset and length.",
+   note="Trusted: single sequential caller; an id re-stored with different data may be answered with any of its stored values; file times are set from operation order.")
 
 PLANNED = {}
 
@@ -130,7 +138,7 @@ def main():
       "setup_cmd": "/verif/setup.sh",
       "hooks": {
         "guard": "verif (Go build tag)",
-        "enable": "go1.26.8 test -c -tags verif -overlay <generated clock overlay> ./engines/<engine> inside /verif/sim, whose go.mod replaces github.com/chrislusf/seaweedfs with /repo (current working tree); the time.Now()->verif.Now() rewrite and export shims are build-time overlays, not edits to /repo",
+        "enable": "go1.26.8 test -c -tags verif -overlay <generated clock overlay> ./engines/<engine> inside /verif/sim, whose go.mod replaces github.com/chrislusf/seaweedfs with /repo (current working tree); the time.Now()->verif.Now() rewrite, the deterministic-map GOROOT files and the export shims under /verif/sim/overlay_add are build-time overlays, not edits to /repo; one overlay file REPLACES a repo file: weed/filesys/wfs_write.go (the mount's chunk saver, stubbed for C30)",
         "baseline_off_cmd": "for m in $(cat /w/out/gomods.txt); do MF=$(cd /repo/$m && . /w/out/goenv.sh && gomodflag); (cd /repo/$m && go test $MF -json -vet=off -count=1 -timeout 25m ./...); done",
         "source_commits": [h.split()[0] for h in hooks],
         "add_only": True,
